@@ -526,7 +526,7 @@ func Spec() *mon.Spec {
 			{Name: "nonnumber", Quick: 200, Thorough: 3000, Run: runNonNumber},
 		},
 		Floors: map[string]int{"distinct_nontrivial": 50000, "floats": 30000, "float_subnormal": 300, "float_negzero": 20, "float_nan": 20, "float_inf": 20,
-			"float_exponents": 2000, "float_printed_scientific": 5000, "bigints": 3000, "rats": 3000, "ints": 3000, "boundary_numbers": 100,
+			"float_exponents": 1500, "float_printed_scientific": 5000, "bigints": 3000, "rats": 3000, "ints": 3000, "boundary_numbers": 100,
 			"roundtrip_via_builtins": 800, "literals_via_builtin": 1500,
 			"valid_dec": 3000, "valid_hex": 1000, "valid_oct": 1000, "valid_bin": 1000, "valid_rat": 3000, "valid_float-point": 5000, "valid_float-sci": 5000, "valid_special": 1500,
 			"valid_with_underscore": 5000, "valid_with_uppercase": 3000, "class_overflow": 100, "nonnumbers": 3000, "selftest_roundings": 10000},
